@@ -33,11 +33,11 @@ theorem defs_run {m : Machine} {labels : List (Label × Nat)} :
 theorem zip_rev_fst {α β} : ∀ (as : List α) (bs : List β), as.length = bs.length →
     ((as.zip bs).reverse.map (·.1)) = as.reverse := by
   intro as bs h
-  rw [← List.map_reverse, List.map_fst_zip (by omega)]
+  rw [List.map_reverse, List.map_fst_zip (by omega)]
 theorem zip_rev_snd {α β} : ∀ (as : List α) (bs : List β), as.length = bs.length →
     ((as.zip bs).reverse.map (·.2)) = bs.reverse := by
   intro as bs h
-  rw [← List.map_reverse, List.map_snd_zip (by omega)]
+  rw [List.map_reverse, List.map_snd_zip (by omega)]
 
 theorem bodySim_succ {n : Nat} (hP : ProgOk S) (ihSs : StmtsSim S n) : BodySim S (n + 1) := by
   intro f vs log σ frs Kc entry hentry
@@ -47,7 +47,7 @@ theorem bodySim_succ {n : Nat} (hP : ProgOk S) (ihSs : StmtsSim S n) : BodySim S
   | some fd =>
     dsimp only
     by_cases hlen : fd.params.length ≠ vs.length
-    · simp only [hlen, if_true, BodyOutcome]
+    · simp only [hlen, not_false_eq_true, if_true, BodyOutcome, ne_eq]
     · simp only [hlen, if_false]
       have hlen' : fd.params.length = vs.length := by omega
       obtain ⟨wp, c, hl, hcode, hdefs⟩ := hP.funs f fd hfd
@@ -58,42 +58,44 @@ theorem bodySim_succ {n : Nat} (hP : ProgOk S) (ihSs : StmtsSim S n) : BodySim S
       | some envF =>
         dsimp only
         -- code layout of the function
-        simp only [compileFun, defsOk_cons] at hdefs
+        have hpro : (((fd.params.map (·.1)).zip vs).reverse.map fun x => (Instruction.Def x.1 : Instr)) =
+            (fd.params.reverse.map fun x => (Instruction.Def x.1 : Instr)) := by
+          have h0 := zip_rev_fst (fd.params.map (·.1)) vs (by simpa using hlen')
+          have h2 : (((fd.params.map (·.1)).zip vs).reverse.map fun x => (Instruction.Def x.1 : Instr)) =
+              ((((fd.params.map (·.1)).zip vs).reverse.map (·.1)).map fun x => (Instruction.Def x : Instr)) := by
+            simp
+          rw [h2, h0]
+          simp [List.map_reverse]
+        have hplen : (fd.params.reverse.map fun x => (Instruction.Def x.1 : Instr)).length = fd.params.length := by simp
+        simp only [compileFun, defsOk_cons, List.length_append, List.length_singleton, hplen] at hdefs
         have hcode' : CodeAt S.labels S.m.prog entry
-            ((((fd.params.map (·.1)).zip vs).reverse.map fun x => Instruction.Def x.1) ++ [Instruction.SaveSP] ++
+            ((fd.params.reverse.map fun x => (Instruction.Def x.1 : Instr)) ++ [Instruction.SaveSP] ++
               (compileStmts S.m.p.structs (entry + (fd.params.length + 1)) c fd.body).code ++ [Instruction.Exit .Panic]) := by
-          have h1 : (((fd.params.map (·.1)).zip vs).reverse.map fun x => Instruction.Def x.1) =
-              (fd.params.reverse.map fun x => Instruction.Def x.1) := by
-            have := zip_rev_fst (fd.params.map (·.1)) vs (by simpa using hlen')
-            rw [show (((fd.params.map (·.1)).zip vs).reverse.map fun x => (Instruction.Def x.1 : Instr)) =
-              ((((fd.params.map (·.1)).zip vs).reverse.map (·.1)).map fun x => (Instruction.Def x : Instr)) by simp, this]
-            simp [List.map_reverse]
-          rw [h1]
           simpa [compileFun, List.append_assoc] using hcode
         rw [codeAt_append, codeAt_append, codeAt_append] at hcode'
         obtain ⟨⟨⟨hcD, hsave⟩, hcB⟩, hexit⟩ := hcode'
-        simp only [codeAt_single, res] at hsave hexit
+        simp only [codeAt_single, res, List.length_append, List.length_singleton, hplen] at hsave hexit hcB
+        rw [← hpro] at hcD
         have hstack : vs.reverse = (((fd.params.map (·.1)).zip vs).reverse.map (·.2)) :=
           (zip_rev_snd (fd.params.map (·.1)) vs (by simpa using hlen')).symm
-        have hnum : (((fd.params.map (·.1)).zip vs).reverse.map fun x => (Instruction.Def x.1 : Instr)).length = fd.params.length := by
-          simp [hlen']
-        rw [hnum] at hsave hcB hexit
         have pre1 := defs_run (m := S.m) (labels := S.labels) (((fd.params.map (·.1)).zip vs).reverse) σ [[]] envF frs Kc entry log hcD hbp
         rw [← hstack] at pre1
         have hnum2 : (((fd.params.map (·.1)).zip vs).reverse).length = fd.params.length := by simp [hlen']
         rw [hnum2] at pre1
         have pre := pre1.trans (Steps.one (step_saveSP hsave))
         have e1 : entry + (fd.params.length + 1) = entry + fd.params.length + 1 := by omega
-        have e2 : (entry + fd.params.length + ([Instruction.SaveSP] : List Instr).length) = entry + fd.params.length + 1 := by simp
-        rw [e2] at hcB hexit
-        rw [e1] at hcB hexit hdefs
+        rw [e1] at hcB hdefs hexit
+        have hexit' : S.m.prog[entry + fd.params.length + 1 +
+            (compileStmts S.m.p.structs (entry + fd.params.length + 1) c fd.body).code.length]? =
+            some (Instruction.Exit ExitReason.Panic) := by
+          rw [← hexit]; congr 1; omega
         have ihb := ihSs fd.body envF log (entry + fd.params.length + 1) c [] σ frs Kc (hP.sup f fd hfd) hcB hdefs.2
         simp only [stAt, List.nil_append] at ihb
         cases hrb : evalStmts S.m.p n envF log fd.body with
         | val env' l =>
           rw [hrb] at ihb; simp only [Outcome] at ihb
           simp only [BodyOutcome]
-          exact ⟨_, ⟨_, pre.trans ihb, step_exit hexit⟩, rfl⟩
+          exact ⟨_, ⟨_, pre.trans ihb, step_exit hexit'⟩, rfl⟩
         | ret v l =>
           rw [hrb] at ihb; simp only [Outcome] at ihb
           obtain ⟨envJ, pcR, hst, hret⟩ := ihb
@@ -108,5 +110,137 @@ theorem bodySim_succ {n : Nat} (hP : ProgOk S) (ihSs : StmtsSim S n) : BodySim S
           exact ErrorsWith.of_steps pre ihb
         | stuck => trivial
         | oof => trivial
+
+theorem isBuiltin_false {f : Nat} (h : isBuiltin f = false) : (builtinInstr f : Option Instr) = none := by
+  match f with
+  | 0 => simp [isBuiltin, builtinInstr] at h
+  | 1 => simp [isBuiltin, builtinInstr] at h
+  | 2 => simp [isBuiltin, builtinInstr] at h
+  | 3 => simp [isBuiltin, builtinInstr] at h
+  | n + 4 => simp [builtinInstr]
+
+theorem evalCall_not_ret (p : Program) (n f : Nat) (vs : List Val) (l : Log) (v : Val) (l' : Log) :
+    evalCall p n f vs l ≠ .ret v l' := by
+  cases n with
+  | zero => simp [evalCall]
+  | succ n =>
+    simp only [evalCall]
+    cases p.funDef f with
+    | none => simp
+    | some fd =>
+      dsimp only
+      split
+      · simp
+      · cases bindParams p [[]] ((fd.params.map (·.1)).zip vs).reverse with
+        | none => simp
+        | some env =>
+          dsimp only
+          cases evalStmts p n env l fd.body <;> simp
+
+theorem sim_call {n : Nat} (hP : ProgOk S) (ihA : ArgsSim S n) (ihB : BodySim S n) (f : Nat) (args : List Expr)
+    (hb : isBuiltin f = false) : ExprCase S (n + 1) (.call f args) := by
+  intro env log wp c junk base fr K hsup hcode hdefs
+  simp only [supE] at hsup
+  have hi := isBuiltin_false hb
+  simp only [compileExpr, hi] at hdefs hcode
+  simp only [codeAt_append, codeAt_single] at hcode
+  have iha := ihA args env log wp c junk base fr K hsup hcode.1 hdefs
+  simp only [evalExpr, compileExpr, hi, hb, Bool.false_eq_true, if_false]
+  cases hra : evalArgs S.m.p n env log args with
+  | val vs l =>
+    rw [hra] at iha; simp only [Outcome] at iha
+    dsimp only
+    cases n with
+    | zero => simp [evalCall, Outcome]
+    | succ n' =>
+      cases hfd : S.m.p.funDef f with
+      | none => simp [evalCall, hfd, Outcome]
+      | some fd =>
+        obtain ⟨entry, c', hl, _, _⟩ := hP.funs f fd hfd
+        have hcall : S.m.prog[wp + (compileArgs S.m.p.structs wp c args).code.length]? =
+            some (Instruction.Call (Target.Resolved entry)) := by
+          have := hcode.2
+          simpa [res, resT, hl] using this
+        have ihb := ihB f vs l (junk ++ base) (env :: fr)
+          ((wp + (compileArgs S.m.p.structs wp c args).code.length) :: base.length :: K) entry hl
+        have pre : Steps S.m (stAt junk base env fr K wp log)
+            ⟨vs.reverse ++ (junk ++ base), [[]] :: env :: fr,
+              (wp + (compileArgs S.m.p.structs wp c args).code.length) :: base.length :: K, entry, l⟩ := by
+          refine iha.trans ?_
+          show Steps S.m ⟨(vs.reverse ++ junk) ++ base, _, _, _, _⟩ _
+          rw [List.append_assoc]
+          exact Steps.one (step_call hcall)
+        cases hrc : evalCall S.m.p (n' + 1) f vs l with
+        | val v l' =>
+          rw [hrc] at ihb; simp only [BodyOutcome] at ihb
+          obtain ⟨envJ, pcR, hst, hret⟩ := ihb
+          simp only [Outcome]
+          refine pre.trans (hst.trans ?_)
+          normpc
+          exact Steps.one (step_return hret)
+        | ret v l' => exact absurd hrc (evalCall_not_ret _ _ _ _ _ _ _)
+        | exit r l' =>
+          rw [hrc] at ihb; simp only [BodyOutcome] at ihb
+          obtain ⟨t, hex, hl'⟩ := ihb
+          exact ⟨t, hex.of_steps pre, hl'⟩
+        | ffiErr l' =>
+          rw [hrc] at ihb; simp only [BodyOutcome] at ihb
+          exact ErrorsWith.of_steps pre ihb
+        | stuck => trivial
+        | oof => trivial
+  | _ => first | (rw [hra] at iha; exact iha) | trivial
+
+theorem popN_append : ∀ (xs σ : List Val), popN xs.length (xs ++ σ) = some (xs, σ)
+  | [], σ => by simp [popN]
+  | x :: xs, σ => by simp [popN, popN_append xs σ]
+
+theorem sim_ffi {n : Nat} (hP : ProgOk S) (ihA : ArgsSim S n) (mname fname : Nat) (ids : Option (Nat × Nat)) (args : List Expr) :
+    ExprCase S (n + 1) (.ffi mname fname ids args) := by
+  intro env log wp c junk base fr K hsup hcode hdefs
+  simp only [supE] at hsup
+  simp only [evalExpr]
+  cases ids with
+  | none => trivial
+  | some mp =>
+    obtain ⟨mi, pi⟩ := mp
+    simp only [compileExpr] at hcode hdefs
+    have hcode' : CodeAt S.labels S.m.prog wp ([Instruction.Meta (mname, fname)] ++ (compileArgs S.m.p.structs (wp + 1) c args).code ++
+        [Instruction.ExtCall mi pi]) := by simpa using hcode
+    simp only [codeAt_append, codeAt_single, res] at hcode'
+    normpc at hcode'
+    obtain ⟨⟨hmeta, hcA⟩, hext⟩ := hcode'
+    have iha := ihA args env log (wp + 1) c junk base fr K hsup hcA hdefs
+    have pre : Steps S.m (stAt junk base env fr K wp log) (stAt junk base env fr K (wp + 1) log) :=
+      Steps.one (step_meta hmeta)
+    dsimp only
+    cases hra : evalArgs S.m.p n env log args with
+    | val vs l =>
+      rw [hra] at iha; simp only [Outcome] at iha
+      dsimp only
+      have hstep : ∀ r, S.m.p.ffi mi pi vs = r → (match r with | .bad => False | _ => True) →
+          step S.m (stAt (vs.reverse ++ junk) base env fr K (wp + 1 + (compileArgs S.m.p.structs (wp + 1) c args).code.length) l) =
+            (match r with
+              | .ret v => .running (stAt (v :: junk) base env fr K (wp + 1 + (compileArgs S.m.p.structs (wp + 1) c args).code.length + 1) ((mi, pi, vs) :: l))
+              | .fail => .error .ffi ((mi, pi, vs) :: l)
+              | .bad => .error .invalidType l) := by
+        intro r hr hnb
+        have har := hP.ffi mi pi vs (by rw [hr]; exact hnb)
+        have hpop : popN vs.length ((vs.reverse ++ junk) ++ base) = some (vs.reverse, junk ++ base) := by
+          have := popN_append vs.reverse (junk ++ base)
+          simpa [List.append_assoc] using this
+        simp only [step, stAt, hext, har, hpop, List.reverse_reverse, hr]
+        cases r <;> simp [VM.next]
+      cases hr : S.m.p.ffi mi pi vs with
+      | ret v =>
+        simp only [Outcome]
+        refine pre.trans (iha.trans ?_)
+        have := hstep _ hr trivial
+        refine Steps.cast_pc (Steps.one this) ?_
+        simp only [compileExpr, List.length_cons, List.length_append, List.length_nil]; omega
+      | fail =>
+        simp only [Outcome]
+        exact ⟨_, pre.trans iha, hstep _ hr trivial⟩
+      | bad => trivial
+    | _ => first | (rw [hra] at iha; exact Outcome.of_steps pre iha) | trivial
 
 end AranyaV.Lang
